@@ -10,7 +10,7 @@ TECHNIQUE = "static analysis over type-checked MIR: derive-shape detection of de
 LEVEL_TEXT = """Static decision of schema/registry/pipeline clauses (agreement of the three formats with one another and with the programmatic configuration rests on serde and the format crates and is NOT claimed): (K1) the derived Deserialize of the 14 listed config structs denies unknown fields (no __ignore field variant, unknown_field reached from both field visitors); (K2) defaults: additive->true, root level->Debug, policy kind->"compound", encoder kind->"pattern", append->true in both file appender builders and only overridden when the config field is Some, console target->Stdout / tty_only->false, fixed-window base->0, on-start-up min_size->1; (K3) every impl of config::Deserialize is inserted exactly once in Deserializers::default() under its documented kind for the matching trait, the default kinds are registered, and an unregistered kind yields Err; (K4) the kind-tagged sections remove "kind" (and "filters") and pass the remainder on, a missing kind is an error for appender/filter/trigger/roller and the default for policy/encoder; (K5) appenders_lossy's loops only exit by exhaustion, push every error, and a failed filter does not drop its appender; file loading uses build_lossy and handles both error lists; create_raw_config fails on any error and uses strict build; (K6) yaml|yml->Yaml, json->Json, toml->Toml and each variant parses with its crate's from_str; (K7) RawConfig::{root,loggers} map level->level, appenders->appenders, additive->additive, map key->name, each setter applied unconditionally before build (never skipped for some documents); (K8) no un-discharged panic site in the loading cone (inherits the time trigger's known finding D5, since TimeTrigger::new runs at load time)."""
 LEVEL_NOTE = "Trusted: rustc MIR/callee resolution; serde derive semantics for the generated shapes; serde_yaml/serde_json/toml; typemap. cfg-disabled formats report a FormatError and are checked as such."
 EXPLANATION = """Decided: K1 deny-unknown shapes (14 structs), K2 defaults, K3 registry, K4 kind-tagged sections, K5 lossy/strict pipelines, K6 format tables, K7 field mapping, K8 loading does not panic (D5 sites reported as known findings under C16). Undecided: cross-format equivalence and equivalence with the programmatic configuration."""
-DECIDED = ["K1", "K2", "K3", "K4", "K5", "K6", "K7", "K8"]
+DECIDED = ["K1", "K2", "K3", "K4", "K5", "K6", "K7", "K8", "K5b a fresh filter list per appender"]
 UNDECIDED = ["cross-format equivalence (serde + format crates)", "equivalence with programmatic configuration for every document"]
 TRUSTED = ["rustc nightly MIR + Instance::try_resolve", "serde derive / serde_yaml / serde_json / toml", "typemap-ors"]
 
@@ -60,6 +60,59 @@ def derived_parts(p, adt):
     fa = [k for k in p.adts if k.endswith("::__Field") and ("for %s>" % adt) in k]
     vis = [f for f in p.fns.values() if ("for %s>" % adt) in f.path and "__FieldVisitor as serde_core::de::Visitor" in f.path]
     return (p.adts[fa[0]] if fa else None), vis
+
+
+def rule_filters_per_appender(ctx, p, cfg, rid):
+    """In the lossy loader every appender starts with an empty filter list of its own: whatever accumulates the deserialized
+    filters (a builder, a Vec) is created inside the per-appender iteration, so nothing left over from a failed appender
+    can reach the next one."""
+    with ctx.rule(rid, "a fresh filter list per appender", cfg) as r:
+        f = p.fn("config::raw::RawConfig::appenders_lossy")
+        des = f.calls("config::raw::Deserializers::deserialize")
+        flt = [c for c in des if any("filter" in str(t) or "Filter" in str(t) for t in c.t.get("generic_args", []))]
+        app = [c for c in des if c not in flt]
+        if len(flt) != 1 or len(app) != 1:
+            raise ShapeUnrecognised("cannot tell the filter site from the appender site in appenders_lossy")
+        outer = [c for c in f.calls(NEXT) if f.dominates(c.block, app[0].block) and not f.dominates(app[0].block, c.block) and f.dominates(c.block, flt[0].block)]
+        outer = sorted(outer, key=lambda c: sum(1 for o in outer if f.dominates(o.block, c.block)))[:1]
+        if not outer:
+            raise ShapeUnrecognised("outer (per-appender) iteration not found")
+        ob = outer[0].block
+        body = {x for x in f.reach(ob, include_src=True) if ob in f.reach(x, include_src=True)}
+        # calls that take the deserialized filter
+        def is_filter(a):
+            d = deep_strip(a)
+            while d[0] == "field":
+                d = deep_strip(d[1])
+            return d[0] == "as" and d[2] in ("Ok", "Continue") and deep_strip(d[1])[0] == "call" and len(deep_strip(d[1])) > 3 and deep_strip(d[1])[3] == flt[0].block
+        takers = [c for c in f.calls() if c.block != flt[0].block and any(is_filter(a) for a in c.arg_exprs()[1:])
+            and c.callee not in ("core::ops::try_trait::Try::branch",) and (c.callee or "").rsplit("::", 1)[-1] in ("filter", "push", "filters", "extend", "push_back")]
+        r.require(len(takers) >= 1, "filter-sink", fn=f, detail="calls receiving the deserialized filter: %s" % [c.callee for c in takers])
+        for c in takers:
+            recv = c.arg(0)
+            inits = [x for x in walk(recv) if x[0] == "call" and len(x) > 3 and (x[1].rsplit("::", 1)[-1] in ("builder", "new", "with_capacity", "default") or x[1].endswith("Vec::<T>::new"))]
+            fresh = bool(inits) and all(x[3] in body and f.dominates(ob, x[3]) for x in inits)
+            r.require(fresh, "accumulator-created-per-appender:%s" % common.role(c), fn=f, site=c.at,
+                      detail="the filter accumulator %s is created inside the per-appender iteration" % show(recv, 3),
+                      fail_detail="the deserialized filters are collected in %s, which is created outside the per-appender iteration: filters of an appender that then fails to build stay in it and are attached to the next appender" % show(recv, 4))
+
+
+def rule_file_append_default(ctx, p, cfg, rid, which="file"):
+    """an appender built from a document that does not mention `append` keeps existing content: builder default true,
+    overridden only when the key is given"""
+    with ctx.rule(rid, "append defaults to true when configured from a file", cfg) as r:
+        def builder_fields(path):
+            b = p.fn(path)
+            e = b.local_expr(0)
+            return b, ({n: deep_strip(v) for n, v in e[3]} if e[0] == "agg" else {})
+        if which == "file":
+            b, fd = builder_fields("append::file::FileAppender::builder")
+            r.require(fd.get("append") == ("const", "bool", True), "file-append-default-true", fn=b, detail="FileAppender::builder(): %s" % {k: show(v) for k, v in fd.items()})
+            overridden_only_on_some(r, p, "<append::file::FileAppenderDeserializer as config::raw::Deserialize>::deserialize", "append::file::FileAppenderBuilder::append", "append", "file-append")
+        else:
+            b, fd = builder_fields("append::rolling_file::RollingFileAppender::builder")
+            r.require(fd.get("append") == ("const", "bool", True), "rolling-append-default-true", fn=b, detail="RollingFileAppender::builder(): %s" % {k: show(v) for k, v in fd.items()})
+            overridden_only_on_some(r, p, "<append::rolling_file::RollingFileAppenderDeserializer as config::raw::Deserialize>::deserialize", "append::rolling_file::RollingFileAppenderBuilder::append", "append", "rolling-append")
 
 
 def run_cfg(ctx, p, cfg):
@@ -292,6 +345,8 @@ def run_cfg(ctx, p, cfg):
                     rets2 = [e for b, e in q.ret_assignments(h) if b in rr]
                     okg = bool(rets2) and all(q.classify_ret(e) == "err" for e in rets2)
         r.require(okg, "raw-config-fails-on-appender-errors", fn=h, detail="non-empty appender errors => Err")
+
+    rule_filters_per_appender(ctx, p, cfg, "K5b")
 
     with ctx.rule("K6", "format table", cfg) as r:
         f = p.fn("config::file::Format::from_path")
